@@ -26,6 +26,11 @@ def run(ctx):
     res["states"] += vst["distinct"]
     res["transitions"] += vst["generated"]
     res["scope"]["populate_programs"] = n
+    if getattr(ctx, "round", 0) == 0:
+        from . import suite_family, family
+        part = suite_family.run_suite(ctx, "C02")
+        res["scope"]["suite"] = part["suite"]
+        family.merge(res, part)
     res["assumptions"] = ["constructors covered: empty+insertions, fromFiber, setRoot, fromUncompressed, fromYAMLfile, deepcopy, swizzle round trip "
                           "(other transform results are judged by C09's result-wf clause with the same RankMirror predicate)",
                           "order of fibers inside a rank list is not constrained",
@@ -34,6 +39,9 @@ def run(ctx):
 
 
 def replay(ctx, rec):
+    if "suite_event" in rec.get("behaviour", {}):
+        from . import suite_family
+        return suite_family.replay_suite(ctx, "C02", rec)
     if rec.get("pop"):
         from . import c05
         return c05.replay(ctx, rec)
